@@ -703,6 +703,7 @@ func (x *Exec) stringToBytes(f *frame, v Val, to types.Type) Val {
 	q := sym(x.vc.fresh("i"))
 	f.assume("(forall ((" + q + " Int)) " + Implies(And(app("<=", "0", q), app("<", q, ln)), Eq(Select(arr, q), app("str.to_code", app("str.at", v.S, q)))) + ")")
 	h.set(f.st, key, sort, Store(h.get(f.st, key, sort), base, arr))
+	h.set(f.st, bytesOfKey, "(Array Int String)", Store(h.get(f.st, bytesOfKey, "(Array Int String)"), base, v.S))
 	return sl
 }
 
